@@ -121,7 +121,10 @@ def run(rep, tier):
     kronexec.run_combine(rep)
     kernels.run_generators(rep, ["apply_operator_vector", "apply_operator_matrix", "trace_out_matrix", "measure_matrix"])
     seed = common.seed()
-    k = 3 if tier == "quick" else 1
+    # quick: every third cell, then capped by run_b; thorough: every fourth cell of each family, uncapped (each family is run in full by the
+    # thorough check of the property that owns it; all of them together took more than two hours here)
+    k = 3 if tier == "quick" else 4
+    rep.bounds["family_stride"] = k
     plain = (opcells.single_target_cells(tier, seed)[1::k] + opcells.multi_target_cells(tier, seed)[1::k] + morecells.structural_cells(tier, seed)[1::k + 1]
              + morecells.kraus_cells(tier, seed)[1::k] + morecells.resize_cells(tier, seed)[1::k + 1] + morecells.trace_out_cells(tier, seed)[1::k])
     B.run_b(rep, plain, ["C20"], tier=tier)
